@@ -520,7 +520,8 @@ class Walker:
             if rest:
                 rf = dict(refine)
                 rf[placet] = frozenset(rest)
-                push(otherwise, rf, decisions + [(("variant", placet), tuple(sorted(rest)), bb)])
+                rv_ = tuple(sorted(rest))
+                push(otherwise, rf, decisions + [(("variant", placet), rv_[0] if len(rv_) == 1 else rv_, bb)])
             return
         # boolean / integer condition
         def stable_since(bb0):
